@@ -335,10 +335,7 @@ def run_system(ctx, desc, idx):
         ctx.count("chstt_" + s["chstt"][0])
     if not valid_env:
         ctx.count("malformed_env_map")
-        if berr is None and any(cell_env_vol_si(desc, c)[0] >= len(desc["envs"]) for c in range(n)) \
-                and "state_override" not in desc and "chem_override" not in desc:
-            ctx.violation("env-index-accepted", "a cell environment index beyond the network's environments was accepted", case,
-                          impl="built", expected="exception")
+        # (whether such a map is rejected is input validation, C20; here only model vs code is compared)
         rec["state0"] = None if system is None else (list(system.state.value), units_tuple(system.state.units), [int(c) for c in system.chemostats])
         return [], rec
     if berr is not None:
